@@ -276,6 +276,10 @@ theorem C23_safe_tile (len ts ti : Int) (hl : 1 ≤ len) (fl : FitsInt len) (fts
     simp only [decide_eq_true_eq]
     split <;> split <;> omega
 
+example : FitsInt 37 ∧ FitsInt 1024 ∧ FitsInt (-1) ∧ mapSafeTileSize 37 1024 = 37 ∧ mapSafeTileIterations 37 8 3 = 3 ∧
+    mapSafeTileSize 37 (-1) = 1 := by
+  refine ⟨?_, ?_, ?_, ?_, ?_, ?_⟩ <;> decide
+
 /-- (b) for the whole entry point: whatever tile settings, a non-empty array's map kernel visits
     `0 .. len-1` in order once @tile scales its inner bound; with the empty-array guard, length 0 visits nothing -/
 theorem C23_map_visit (len ts ti : Int) (hl : 0 ≤ len) (fl : FitsInt len) (fts : FitsInt ts) (fti : FitsInt ti)
@@ -373,6 +377,9 @@ theorem C23_map_is_transform (s : St) (src : Arr) (fn : List Int → Nat → Int
   rw [hguard]
   exact C23_map_visit src.len src.ts src.ti (by omega) fl fts fti hscaled
 
+example : ∃ s : St, ∃ a : Arr, a.buf < s.bufs.length ∧ FitsInt a.len ∧ FitsInt a.ts ∧ FitsInt a.ti ∧ s.read a = [5, -3, 2] :=
+  ⟨(({} : St).alloc [5, -3, 2]).1, (({} : St).alloc [5, -3, 2]).2, by decide, by decide, by decide, by decide, by decide⟩
+
 /-- … and for the unscaled @tile as long as no more than one tile iteration is requested -/
 theorem C23_map_is_transform_partial (s : St) (src : Arr) (fn : List Int → Nat → Int) (hsrc : src.buf < s.bufs.length)
     (fl : FitsInt src.len) (fts : FitsInt src.ts) (hti : src.ti ≤ 1) (fti : FitsInt src.ti)
@@ -461,6 +468,9 @@ example : cpuReduce ([3, 1, 4, 1, 5] : List Int).length 0 (redFn 0 0 0 [3, 1, 4,
 /-- F62 (finding): an initial value that is not the identity is folded into each of the 128 blocks -/
 theorem C23_local_init_counted_per_block :
     cpuReduce 2 5 (redFn 0 0 0 [1, 2]) (hostComb 0) = 128 * 5 + 3 := by decide +kernel
+
+example : (cpuBlocks 300).flatten.length = 300 ∧ (cpuBlocks 300).length = 128 ∧ ((cpuBlocks 300).getD 99 []) = [297, 298, 299] := by
+  decide +kernel
 
 /-- the dot product is the CPU reduction of the element-wise products -/
 theorem C23_dot (xs ys : List Int) :
@@ -694,6 +704,14 @@ theorem C23_forloop_tuples_nodup (ds : List (List Int)) (h : ∀ d ∈ ds, d.Nod
         obtain ⟨y, hy, v, _, hv⟩ := hb
         have : y = x := (List.cons.inj hv).1
         exact hd.1 (this ▸ hy)
+
+example : (∀ d ∈ [[7, 3, -2], [0, 1]], d.Nodup) ∧ (tuples [[7, 3, -2], [0, 1]]).length = 6 ∧
+    tupleOf [3, 1] [[7, 3, -2], [0, 1]] := by
+  refine ⟨?_, by decide, ?_⟩
+  · intro d hd
+    simp only [List.mem_cons, List.mem_nil_iff, or_false] at hd
+    rcases hd with rfl | rfl <;> decide
+  · simp [tupleOf]
 
 /-- the values of a range iteration in the generated kernel are the values of the sequential loop, for both
     signs of the step, once the descending loop subtracts the magnitude of the step (repair of F61) -/
